@@ -26,8 +26,13 @@ def fromOctets (bs : Bytes) : Outcome Bytes :=
   | .err => .err
   | .panic => .panic
 
+/-! `const COFF: usize = 19` of notification.rs and `COFF+1`; `data()` is written with the literal 21 in the source
+(`> 21`, `[21..]`).  Scoped notations for numerals, tied by `Rc.Thm.C03.model_constants_agree`. -/
+scoped notation "NCOFF" => (19 : Nat)
+scoped notation "NCOFF_1" => (20 : Nat)
+
 /-- `code()`: `octets[COFF].into()`; ErrorCode <-> u8 is the identity (C18) -/
-def code (m : Bytes) : Outcome UInt8 := idx m 19
+def code (m : Bytes) : Outcome UInt8 := idx m NCOFF
 
 /-- `Details::raw` after `details()`: the subcode is read first (`octets[COFF+1]`),
 then the code; `Reserved` (0) and `HoldTimerExpired` (4) carry no subcode
@@ -36,8 +41,8 @@ def rawOf (c s : UInt8) : UInt8 × UInt8 :=
   if c.toNat = 0 ∨ c.toNat = 4 then (c, 0) else (c, s)
 
 def detailsRaw (m : Bytes) : Outcome (UInt8 × UInt8) := do
-  let s ← idx m 20
-  let c ← idx m 19
+  let s ← idx m NCOFF_1
+  let c ← idx m NCOFF
   pure (rawOf c s)
 
 /-- `data()`: `Some(&self.as_ref()[21..])` if longer than 21 bytes -/
